@@ -36,6 +36,13 @@ pub struct Walrus {
     pub(super) fsync_schedule: FsyncSchedule,
 }
 
+impl Drop for Walrus {
+    fn drop(&mut self) {
+        // a clean shutdown must leave the latest clean/dirty markers on disk
+        self.topic_clean_tracker.flush();
+    }
+}
+
 impl Walrus {
     pub fn new() -> std::io::Result<Self> {
         Self::with_consistency(ReadConsistency::StrictlyAtOnce)
